@@ -467,7 +467,7 @@ func c09Setup(c *Case) (*TS, *transferSet, *hotline.ClientConn, *[]func(), func(
 		c.Note("setup", err.Error())
 		return nil, nil, nil, nil, func() {}
 	}
-	set := &transferSet{ts: ts}
+	set := &transferSet{ts: ts, x: c.X}
 	post := &[]func(){}
 	cc, _ := ts.DirectClient("admin", []byte("admin"), "127.0.0.1:1234")
 	return ts, set, cc, post, func() {
